@@ -5,6 +5,8 @@ import (
 	"bytes"
 	"context"
 	"fmt"
+	"google.golang.org/grpc/codes"
+	"google.golang.org/grpc/status"
 	"io"
 	"math"
 	"os"
@@ -92,7 +94,7 @@ type Req struct {
 	Part    int  `json:"part"`  // partition selector: 0..2 = k-th partition of the dataset, 3 unknown, 4 malformed
 	Id      int  `json:"id"`    // item id selector: 0..5 pool, 6 empty, 7 15 bytes, 8 17 bytes
 	Vec     int  `json:"vec"`   // 0 right dimension, 1 empty, 2 dim+1, 3 NaN, 4 +Inf, 5 huge magnitudes, 6 dim-1
-	Meta    int  `json:"meta"`  // 0 none, 1 small, 2 empty key, 3 256-byte key, 4 70000-byte value, 5 300 keys
+	Meta    int  `json:"meta"`  // 0 none, 1 small, 2 empty key, 3 256-byte key, 4 70000-byte value, 5 300 keys, 6 128-rune/256-byte key, 7 32768-rune/65536-byte value, 8 at the limits (255-byte key, 65535-byte value), 9 multi-byte at the limits
 	K       int  `json:"k"`     // search k selector
 	Batch   int  `json:"batch"` // batch size selector
 	Dup     bool `json:"dup"`   // batch contains duplicates
@@ -100,7 +102,7 @@ type Req struct {
 	P       int  `json:"p"`     // create: partition count selector
 	R       int  `json:"r"`     // create: replication factor selector
 	Space   int  `json:"space"`
-	BadItem int  `json:"baditem"` // batch: selector of one hostile item (0 none, 1 malformed id, 2 wrong dimension, 3 empty vector, 4 nil item)
+	BadItem int  `json:"baditem"` // batch: selector of one hostile item (0 none, 1 malformed id, 2 wrong dimension, 3 empty vector, 4 nil item, 5-8 client-set level field -1 / -2 / -2^31 / 2^30, 9 hostile metadata of selector Meta)
 }
 
 var (
@@ -138,7 +140,7 @@ func genCase(t *rapid.T) Case {
 			Part:    pickMostly0(5, "part"),
 			Id:      rapid.IntRange(0, 5).Draw(t, "id") + 0*pickMostly0(1, "x"),
 			Vec:     pickMostly0(7, "vec"),
-			Meta:    pickMostly0(6, "meta"),
+			Meta:    pickMostly0(10, "meta"),
 			K:       []int{2, 1, 3, 0, 4, 5}[pickMostly0(6, "k")],
 			Batch:   []int{2, 1, 3, 0, 4, 5}[pickMostly0(6, "batch")],
 			Dup:     rapid.IntRange(0, 4).Draw(t, "dup") == 0,
@@ -146,10 +148,10 @@ func genCase(t *rapid.T) Case {
 			P:       pickMostly0(5, "p"),
 			R:       pickMostly0(5, "r"),
 			Space:   rapid.IntRange(0, 2).Draw(t, "space"),
-			BadItem: pickMostly0(5, "baditem"),
+			BadItem: pickMostly0(10, "baditem"),
 		}
 	})
-	c := Case{Reqs: rapid.SliceOfN(req, 5, pbt.Pick(24, 40)).Draw(t, "reqs"), SnapshotPump: rapid.IntRange(0, 2).Draw(t, "pump") == 0}
+	c := Case{Reqs: rapid.SliceOfN(req, 5, pbt.Pick(24, 40)).Draw(t, "reqs"), SnapshotPump: rapid.IntRange(0, 1).Draw(t, "pump") == 0}
 	// hostile item ids sometimes
 	for i := range c.Reqs {
 		if rapid.IntRange(0, 9).Draw(t, "badid") == 0 {
@@ -394,6 +396,14 @@ func metadata(sel int) map[string]string {
 			m[fmt.Sprintf("k%d", i)] = "v"
 		}
 		return m
+	case 6:
+		return map[string]string{strings.Repeat("\u00e9", 128): "v"} // 128 characters, 256 bytes
+	case 7:
+		return map[string]string{"big": strings.Repeat("\u00e9", 32768)} // 32768 characters, 65536 bytes
+	case 8:
+		return map[string]string{strings.Repeat("k", 255): strings.Repeat("v", 65535)}
+	case 9:
+		return map[string]string{strings.Repeat("\u00e9", 127) + "k": strings.Repeat("\u00e9", 32767) + "v"} // 255 and 65535 bytes
 	}
 	return nil
 }
@@ -426,6 +436,16 @@ func (r Req) batchItems(dim uint32) []*pb.BatchItem {
 			items[j].Value = nil
 		case 4:
 			items[j] = nil
+		case 5:
+			items[j].Level = -1
+		case 6:
+			items[j].Level = -2
+		case 7:
+			items[j].Level = math.MinInt32
+		case 8:
+			items[j].Level = 1 << 30
+		case 9:
+			items[j].Metadata = metadata(r.Meta)
 		}
 		if r.Id >= 6 && items[0] != nil {
 			items[0].Id = idBytes(r.Id)
@@ -646,6 +666,34 @@ func check(c Case, o *pbt.Obs) *pbt.Failure {
 			key, why := s.deathReason()
 			return pbt.Failf("C12:restart-crash/"+key, "restart %d: the server died on the first valid requests after restart: %s", round+1, why)
 		}
+		// no partition may be left wedged by what the requests put into its log: a valid write into every dataset known to
+		// exist is answered (with success or a definite error) within 20 s of retries
+		for di := range k.ds {
+			var last string
+			answered := false
+			for try := 0; try < 10 && !answered && s.alive(); try++ {
+				ctx, cancel := context.WithTimeout(context.Background(), 2*time.Second)
+				_, err := cl.data.Insert(ctx, &pb.InsertRequest{DatasetId: k.ds[di], Id: gen.ID(7000 + round).Bytes(), Value: vector(0, k.dims[di], 9)})
+				cancel()
+				if err == nil {
+					answered = true
+					break
+				}
+				last = err.Error()
+				st, _ := status.FromError(err)
+				if st.Code() != codes.DeadlineExceeded && st.Code() != codes.Unavailable && !strings.Contains(last, "deadline exceeded") && !strings.Contains(strings.ToLower(last), "raft") {
+					answered = true
+				}
+			}
+			if !s.alive() {
+				key, why := s.deathReason()
+				return pbt.Failf("C12:restart-crash/"+key, "restart %d: the server died on a valid write after restart: %s", round+1, why)
+			}
+			if !answered {
+				return pbt.Failf("C12:partition-wedged-after-restart", "restart %d: a valid insert into dataset %x is not answered within 10 attempts of 2 s (last: %s) although the process is alive: a partition did not come back ;; last requests: %s", round+1, k.ds[di], last, strings.Join(trail, " ;; "))
+			}
+			o.Label("valid-write-after-restart-answered")
+		}
 		if round == 0 {
 			s.kill9()
 			cl.conn.Close()
@@ -663,7 +711,7 @@ func check(c Case, o *pbt.Obs) *pbt.Failure {
 func TestNoRequestKillsTheServer(t *testing.T) {
 	pbt.Run(t, pbt.Prop[Case]{
 		ID: "C12", Name: "TestNoRequestKillsTheServer",
-		Rule:    "rapid-generated sequences of 5-24 well-typed requests over every RPC of DatasetManager, DataManager, Search (and NodesManager list/load-info) against a real server process (cmd/anndb of the working tree, verif tag for fast logical time and, in a third of the cases, log compaction every 40 ms), fields drawn mostly valid with hostile values mixed in (ids of length 0/15/17, unknown/malformed dataset and partition ids, dimension 0/2048, empty / longer / shorter / NaN / Inf / huge vectors, over-long and numerous metadata, k in {0,1,10^6,2^32-1}, batch sizes 0/1/100/101/1000 with duplicates and one hostile item, partition / replica counts 0/64/9) after a valid dataset and items exist; oracle: after every request the process is alive and answers a List ping (3 s, confirmed with 10 s), then kill -9 and two restarts on the same data directory: the server must come up, stay up through replay and serve valid requests; non-trivial = a hostile request followed by a valid one; distinct = distinct case JSON",
+		Rule:    "rapid-generated sequences of 5-24 well-typed requests over every RPC of DatasetManager, DataManager, Search (and NodesManager list/load-info) against a real server process (cmd/anndb of the working tree, verif tag for fast logical time and, in half of the cases, log compaction every 40 ms), fields drawn mostly valid with hostile values mixed in (ids of length 0/15/17, unknown/malformed dataset and partition ids, dimension 0/2048, empty / longer / shorter / NaN / Inf / huge vectors, over-long, numerous, at-the-limit and multi-byte (fewer characters than bytes) metadata, k in {0,1,10^6,2^32-1}, batch sizes 0/1/100/101/1000 with duplicates and one hostile item (malformed id, wrong dimension, empty vector, nil, client-set level field negative or huge, hostile metadata), partition / replica counts 0/64/9) after a valid dataset and items exist; oracle: after every request the process is alive and answers a List ping (3 s, confirmed with 10 s), then kill -9 and two restarts on the same data directory: the server must come up, stay up through replay and answer a valid write into every dataset known to exist (success or a definite error, not a timeout) within 20 s; non-trivial = a hostile request followed by a valid one; distinct = distinct case JSON",
 		Gen:     genCase,
 		Check:   check,
 		Journal: false,
